@@ -192,7 +192,7 @@ pub fn run(id: &str, data: &[u8]) -> Option<String> {
 		"C03" => {
 			let f = c.u8();
 			let route = [c03::Route::Standalone, c03::Route::InFull, c03::Route::InReference][(f / 2) as usize % 3];
-			judge::<c03::C03>(c03::Case { fam: if f & 1 == 1 { Fam::Iri } else { Fam::Uri }, authority: String::from_utf8_lossy(c.rest()).to_string(), route })
+			judge::<c03::C03>(c03::Case { fam: if f & 1 == 1 { Fam::Iri } else { Fam::Uri }, authority: String::from_utf8_lossy(c.rest()).to_string(), route, before: None })
 		}
 		"C04" => {
 			let f = c.u8();
@@ -220,7 +220,7 @@ pub fn run(id: &str, data: &[u8]) -> Option<String> {
 		"C05" => {
 			let f = c.u8();
 			let initial = c.text();
-			judge::<c05::C05>(c05::Case { fam: if f & 1 == 1 { Fam::Iri } else { Fam::Uri }, full: f & 2 != 0, initial, op: setop(&mut c) })
+			judge::<c05::C05>(c05::Case { fam: if f & 1 == 1 { Fam::Iri } else { Fam::Uri }, full: f & 2 != 0, initial, op: setop(&mut c), before: vec![] })
 		}
 		"C06" => {
 			let fam = c.fam();
@@ -241,7 +241,7 @@ pub fn run(id: &str, data: &[u8]) -> Option<String> {
 			let fam = c.fam();
 			let e = embed(&mut c);
 			let (abs, s) = segs(&c.text());
-			judge::<c09::C09>(c09::Case { fam, embed: e, abs, segs: s })
+			judge::<c09::C09>(c09::Case { fam, embed: e, abs, segs: s, repeat_first: None })
 		}
 		"C10" => {
 			let fam = c.fam();
